@@ -357,40 +357,7 @@ func runC01(c *Ctx) {
 	// ---- R5 ---------------------------------------------------------------
 	// who-may-release: inside the lock's own implementation only ReleaseIfStale (and MakeStale's test helper path) may call
 	// Unlock, and only Unlock removes lockPath(): an acquire path that "cleans up" removes the lock of whoever holds it.
-	for _, f := range c.srcFuncs(fsPkgRel) {
-		if !isRemoteLockMethod(f) {
-			continue
-		}
-		outer := outermost(f)
-		allInstrs(f, func(in ssa.Instruction) {
-			cl, ok := in.(*ssa.Call)
-			if !ok {
-				return
-			}
-			g := staticCallee(&cl.Call)
-			callsUnlock := g == unlock
-			removes := false
-			if n := calleeFull(&cl.Call); hasSuffixAny(n, "VFS).Rm", "VFS).RemoveWithContext", "VFS).RemoveWithContextAndExclusionPatterns", ".Remove", ".RemoveAll") {
-				for _, a := range cl.Call.Args {
-					if isLockPathValue(a) {
-						removes = true
-					}
-				}
-			}
-			if !callsUnlock && !removes {
-				return
-			}
-			key := fname(outer) + "/releases"
-			switch {
-			case callsUnlock && outer.Name() == "ReleaseIfStale":
-				c.ok("R5", key, c.ipos(cl), "release by the stale take-over (guarded by IsStale, see R3/C17)")
-			case removes && outer == unlock:
-				c.ok("R5", key, c.ipos(cl), "the holder's release")
-			default:
-				c.violate("R5", key, c.ipos(cl), outer.Name()+" removes the lock directory (through "+short(calleeNameOf(cl))+") although it is not the holder's release nor the guarded stale take-over: a contender whose acquisition failed deletes the lock of whoever holds it, and the next acquire succeeds while the holder still holds")
-			}
-		})
-	}
+	c.lockWhoMayRelease("R5")
 
 	// ---- R6 ---------------------------------------------------------------
 	// The take-over of R3 is licensed by IsStale(): what IsStale cannot read must not license it (shared with C17/S7).
@@ -581,4 +548,48 @@ func (c *Ctx) heartBeatEveryBeat(ruleCreate, ruleClock string) {
 	}
 	c.check(stamping == 0 || bad == "", ruleClock, fname(hb)+"/every-beat-reads-the-clock", c.pos(hb.Pos()), "the times written at a beat come from time.Now() evaluated in the loop",
 		"the time written at "+bad+" is not read from the clock at that beat (it is carried from one iteration to the next, or computed): observers compare it with their own clock, every delay of a beat accumulates, and after one stall of the disk the live lock is reported stale for ever")
+}
+
+// lockWhoMayRelease (R5, evaluated as Y17 for C16): inside the lock's own implementation only ReleaseIfStale may call Unlock,
+// and only Unlock removes lockPath(): an acquire path that "cleans up after itself" removes the lock of whoever holds it.
+func (c *Ctx) lockWhoMayRelease(rule string) {
+	unlock := c.fn(fsPkgRel, "(*RemoteLockFile).Unlock")
+	if unlock == nil {
+		return
+	}
+	for _, f := range c.srcFuncs(fsPkgRel) {
+		if !isRemoteLockMethod(f) {
+			continue
+		}
+		outer := outermost(f)
+		allInstrs(f, func(in ssa.Instruction) {
+			cl, ok := in.(*ssa.Call)
+			if !ok {
+				return
+			}
+			g := staticCallee(&cl.Call)
+			callsUnlock := g == unlock
+			removes := false
+			if n := calleeFull(&cl.Call); hasSuffixAny(n, "VFS).Rm", "VFS).RemoveWithContext", "VFS).RemoveWithContextAndExclusionPatterns", ".Remove", ".RemoveAll") {
+				for _, a := range cl.Call.Args {
+					if isLockPathValue(a) {
+						removes = true
+					}
+				}
+			}
+			if !callsUnlock && !removes {
+				return
+			}
+			key := fname(outer) + "/releases"
+			switch {
+			case callsUnlock && outer.Name() == "ReleaseIfStale":
+				c.ok(rule, key, c.ipos(cl), "release by the stale take-over (guarded by IsStale, see R3/C17)")
+			case removes && outer == unlock:
+				c.ok(rule, key, c.ipos(cl), "the holder's release")
+			default:
+				c.violate(rule, key, c.ipos(cl), outer.Name()+" removes the lock directory (through "+short(calleeNameOf(cl))+") although it is not the holder's release nor the guarded stale take-over: a contender whose acquisition failed deletes the lock of whoever holds it, and the next acquire succeeds while the holder still holds")
+			}
+		})
+	}
+
 }
